@@ -232,9 +232,13 @@ class ActionContext(abc.ABC):
         """
         if not self.location_action.can_trigger(self.trigger_context.ts):
             return False
-        if self.location_action.condition is None or len(self.location_action.condition.strip()) == 0:
+        condition = self.location_action.condition
+        if condition is not None and not isinstance(condition, str):
+            # registered in code with a python value where the service sends text (True, 1): its text is the expression
+            condition = str(condition)
+        if condition is None or len(condition.strip()) == 0:
             return True
-        result = self.trigger_context.evaluate_condition(self.location_action.id, self.location_action.condition)
+        result = self.trigger_context.evaluate_condition(self.location_action.id, condition)
         if isinstance(result, BaseException):
             # the condition failed to evaluate (evaluate_expression returns the error), so it is not met
             return False
